@@ -18,7 +18,20 @@ func (fr *Frame) locals(x *Exec, st *State) map[string]Val {
 	m := map[string]Val{}
 	// source-level names: the latest definition that dominates the current block
 	for name, defs := range fr.namedDefs {
+		// a variable that lives in memory (address taken, e.g. captured by a closure) is read from
+		// its cell: the value references recorded at its individual reads are stale copies
+		addr := -1
 		for i := len(defs) - 1; i >= 0; i-- {
+			d := defs[i]
+			if d.isAddr && (fr.curBlock == nil || d.block == fr.curBlock || d.block.Dominates(fr.curBlock)) {
+				addr = i
+				break
+			}
+		}
+		for i := len(defs) - 1; i >= 0; i-- {
+			if addr >= 0 {
+				i = addr
+			}
 			d := defs[i]
 			if fr.curBlock == nil || d.block == fr.curBlock || d.block.Dominates(fr.curBlock) {
 				if d.isAddr {
@@ -633,7 +646,7 @@ func (x *Exec) havocTarget(st, old *State, tgt string, pkg *types.Package, env m
 	case strings.HasPrefix(tgt, "region(") && strings.Contains(tgt, ") at "):
 		// region(R) at E: the part of region R that belongs to object E
 		k := strings.Index(tgt, ") at ")
-		reg := tgt[7:k]
+		reg := x.prog.fixRegion(tgt[7:k])
 		e, err := parser.ParseExpr(ghostRe.ReplaceAllString(tgt[k+5:], "ghost__$1"))
 		if err != nil {
 			x.unsupported("assigns target %q: %v", tgt, err)
@@ -657,7 +670,7 @@ func (x *Exec) havocTarget(st, old *State, tgt string, pkg *types.Package, env m
 		}
 		return
 	case strings.HasPrefix(tgt, "region(") && strings.HasSuffix(tgt, ")"):
-		reg := tgt[7 : len(tgt)-1]
+		reg := x.prog.fixRegion(tgt[7 : len(tgt)-1])
 		hit := false
 		for k := range x.heapSort {
 			if k == reg || strings.HasPrefix(k, reg+".") || strings.HasPrefix(k, reg+"#") || strings.HasPrefix(k, reg+":") {
@@ -736,9 +749,9 @@ func (x *Exec) assignsRegions(ctr *Contract, isGo bool, sig *types.Signature) (r
 			case strings.HasPrefix(tgt, "#"):
 				ghosts[tgt[1:]] = true
 			case strings.HasPrefix(tgt, "region(") && strings.Contains(tgt, ") at "):
-				regions[tgt[7:strings.Index(tgt, ") at ")]] = true
+				regions[x.prog.fixRegion(tgt[7:strings.Index(tgt, ") at ")])] = true
 			case strings.HasPrefix(tgt, "region("):
-				regions[tgt[7:len(tgt)-1]] = true
+				regions[x.prog.fixRegion(tgt[7:len(tgt)-1])] = true
 			case strings.HasPrefix(tgt, "contents("):
 				e, err := parser.ParseExpr(tgt[9 : len(tgt)-1])
 				if err == nil {
@@ -776,7 +789,14 @@ func (x *Exec) staticTypeOfSpec(ctr *Contract, sig *types.Signature, e ast.Expr)
 	case *ast.ParenExpr:
 		return x.staticTypeOfSpec(ctr, sig, t.X)
 	case *ast.Ident:
-		if sig.Recv() != nil && (sig.Recv().Name() == t.Name || t.Name == "self") {
+		// the contract may use the names of receiver and parameters from before a rename
+		names := map[string]bool{t.Name: true}
+		if fn := x.prog.funcByKey[ctr.Key]; fn != nil {
+			for _, c := range x.prog.renamedLocals(fn)[t.Name] {
+				names[c] = true
+			}
+		}
+		if sig.Recv() != nil && (names[sig.Recv().Name()] || t.Name == "self") {
 			return sig.Recv().Type()
 		}
 		for i := 0; i < sig.Params().Len(); i++ {
@@ -784,7 +804,7 @@ func (x *Exec) staticTypeOfSpec(ctr *Contract, sig *types.Signature, e ast.Expr)
 			if i < len(ctr.Params) {
 				n = ctr.Params[i]
 			}
-			if n == t.Name {
+			if names[n] {
 				return sig.Params().At(i).Type()
 			}
 		}
@@ -802,8 +822,9 @@ func (x *Exec) staticTypeOfSpec(ctr *Contract, sig *types.Signature, e ast.Expr)
 			xt = p.Elem()
 		}
 		if st, ok := xt.Underlying().(*types.Struct); ok {
+			fname := x.prog.fieldName(xt, t.Sel.Name)
 			for i := 0; i < st.NumFields(); i++ {
-				if st.Field(i).Name() == t.Sel.Name {
+				if st.Field(i).Name() == fname {
 					return st.Field(i).Type()
 				}
 			}
@@ -829,7 +850,7 @@ func (x *Exec) staticRegionOfSpec(ctr *Contract, sig *types.Signature, e ast.Exp
 			return ""
 		}
 		if p, ok := xt.Underlying().(*types.Pointer); ok {
-			return typePrefix(p.Elem()) + "." + t.Sel.Name
+			return typePrefix(p.Elem()) + "." + x.prog.fieldName(p.Elem(), t.Sel.Name)
 		}
 		// field of embedded struct value: region of the outer l-value
 		if r := x.staticRegionOfSpec(ctr, sig, t.X); r != "" {
